@@ -63,7 +63,9 @@ LEVEL_TEXT = ("Lean theorems over R about formulas translated from the Python so
               "tables ending at 2 pi and all azimuths; the way from the table GIVEN to the table read is inside the model: the `mask=` handling of "
               "TopocentricFrame.__init__ and create_station is translated from the source (a list/tuple of rows or a 2xN ndarray is stored unchanged), a state machine "
               "describes assignment, in-place writes and reads of station.mask, and for every creation argument and every history whose current table "
-              "follows the convention the next read is the interpolant of that table (reads keep nothing, change nothing).")
+              "follows the convention the next read is the interpolant of that table (reads keep nothing, change nothing); a station name stands for the coordinates of "
+              "its last creation (registry state machine: after any history, create_station(name, coords) then a change to the frame of that name gives position and axes of "
+              "the new coordinates, other names unaffected); a longitude L and L +- 360 deg give the same position and axes.")
 LEVEL_NOTE = ("R -> double gap covered only by tolerance-bounded correspondence; the control flow of get_mask (extraction refuses another statement shape), "
               "the attribute semantics of station.mask (plain attribute: checked on the class bodies), Python truth values / np.asarray of the mask argument, "
               "frame-change plumbing (centre offset, inverse) and expand() are hand-modelled and tied by correspondence (real station objects driven through "
@@ -72,7 +74,8 @@ LEVEL_NOTE = ("R -> double gap covered only by tolerance-bounded correspondence;
 TECHNIQUE = "Lean 4 proof (ring/field_simp/trig identities; list induction over the mask scan loop) over formulas regenerated from the Python AST; differential correspondence"
 TRUSTED = [
     "harness/py2lean.py + the extraction code of harness/props/C11.py: translate the source expressions into Generated/StationGeo{F,R}.lean on every run",
-    "lean/templates/Station.tpl (hand-written: frame change M^-1 (r - s) with M^-1 = M^T, control flow of the get_mask scan loop, the state machine of station.mask, expand()), tied by the correspondence run",
+    "lean/templates/Station.tpl (hand-written: frame change M^-1 (r - s) with M^-1 = M^T, control flow of the get_mask scan loop, the state machine of station.mask, "
+    "the registry of station names (hooks, links and frames.dynamic keyed by name, each creation overriding), expand()), tied by the correspondence run",
     "the hand-written semantic primitives of the generated mask path (MASK_PRELUDE in harness/props/C11.py: Python's bool() of None / sequences / ndarrays, np.asarray of a sequence of two rows) and the encoding of a 2xN table as a list of columns",
     "numpy / libm double arithmetic vs R: tolerance 1e-9 relative (angles 1e-10 rad scaled by conditioning)",
     "numpy semantics: `@` is the matrix product, np.linalg.inv of an orthonormal matrix is its transpose, `x in array` / np.where(==) is float equality, float % is floored modulo",
@@ -104,11 +107,14 @@ RULE = ("correspondence: stations on a lat/lon/alt grid (all quadrants, near-pol
         "maskrun (a station created with mask= None / omitted / [] / () / list / tuple / rows of arrays / numpy scalars / int elevations / ndarray, keyword or positional, through "
         "create_station or TopocentricFrame, parent frame default/WGS84/ITRF/PEF/TIRF, equatorial or not, then a history of assignments (4 array layouts), None, in-place column writes, "
         "writes into the caller's own list, reads incl. azimuths asked before; replies and stored tables vs the state machine). Stations of the sweep are created with every option too. "
+        "reg (histories of creations and RE-creations under 1-3 names, at other / at the same coordinates, interleaved; every live name used through the object and through its name after each creation, vs the registry model). "
+        "Station coordinates: signed and 0..360 east longitudes, exactly 0/180/-180/360, beyond one turn, the poles, altitudes from -11 km to geostationary height. "
         "non-trivial = generic input (not an edge constant); "
         "distinct = distinct request line. oracle: independent ENU computation in extended precision on the real API, ellipsoid membership/normal, rest in ITRF/PEF/TIRF, "
         "omega x r and finite differences in inertial frames, measures vs ENU quantities, "
         "station position/axes for every numeric kind of coordinates incl. narrow numpy dtypes, mask vs independent interpolation for tables assigned, given at creation "
-        "(12 kinds of object x 4 entry points, round robin), re-assigned, written in place; parent frames; equatorial stations")
+        "(12 kinds of object x 4 entry points, round robin), re-assigned, written in place; parent frames; equatorial stations; longitude L vs L +- 360 k; "
+        "histories of stations re-created under names in use (each live name vs ENU at its last coordinates after every creation)")
 
 TWO_PI = 2 * math.pi
 WGS84_A = 6378137.0
@@ -175,9 +181,9 @@ def typed_coords(kind, lat, lon, alt):
     if kind == "np-uint8-array":
         return np.array([abs(il), io % 256, ia % 256], dtype=np.uint8)
     if kind == "np-int16-array":
-        return np.array([il, io, ia], dtype=np.int16)
+        return np.array([il, max(-32768, min(32767, io)), max(-32768, min(32767, ia))], dtype=np.int16)
     if kind == "np-uint16-array":
-        return np.array([abs(il), io % 360, abs(ia)], dtype=np.uint16)
+        return np.array([abs(il), io % 360, min(65535, abs(ia))], dtype=np.uint16)
     if kind == "np-float32-array":
         return np.array([fl, fo, fa], dtype=np.float32)
     raise ValueError(kind)
@@ -1066,13 +1072,15 @@ def check_wgs84(out, st, inp_s, a, f, lat, lon, alt, date):
 
 def oracle(ctx, widened):
     """a harness error must never hide a violation: when a later part of the sweep raises (a changed library may raise anywhere) the
-    failing inputs found so far are reported; with none found the exception propagates (infrastructure error)"""
+    failing inputs found so far are reported; when none was found — other than those of the open known findings — the exception propagates
+    (infrastructure error, exit 2)"""
     out = Outcome()
     try:
         return _oracle(ctx, widened, out)
     except Exception as e:  # noqa: BLE001
-        if not out.failures:
-            raise
+        known = core.load_known()
+        if all(core.match_known(ID, fl, known) is not None for fl in out.failures):
+            raise           # nothing new was found before the exception: an infrastructure error, not a verdict
         import traceback
         out.notes.append("oracle sweep interrupted by " + repr(e) + " at " + traceback.format_exc().strip().split("\n")[-3].strip())
         return out
@@ -1946,7 +1954,6 @@ def replay(failure):
     date = Date(2021, 3, 4, 5, 6, 7)
     if fam.startswith("mask-") and isinstance(inp, dict) and "okind" in inp and "given" in inp:
         # a mask handed over at creation, then a history of operations: the recorded history is run again on a fresh station
-        import random
         check_mask_given(out, random.Random(0), inp["okind"], inp["entry"], inp["given"][0], inp["given"][1], [tuple(o) for o in inp.get("ops", [])],
                          parent=inp.get("parent", "default"), equatorial=bool(inp.get("equatorial", False)))
         return out
@@ -1958,7 +1965,6 @@ def replay(failure):
         check_longitude_turns(out, random.Random(0), lat_d, inp.get("same_as_longitude", lon2), alt, a, f)
         return out
     if fam.startswith("station-equatorial") and isinstance(inp, dict):
-        import random
         check_equatorial(out, random.Random(0), *inp["latlonalt_deg_m"], a, f, date, inp.get("parent", "default"))
         return out
     if fam.startswith("mask-interp") and isinstance(inp, dict) and "azimuths" in inp:
